@@ -56,6 +56,9 @@ def as_promoted_dtype(x: P) -> P:
         {'a': Array([1., 1.], dtype=float32), 'b': Array([1., 1.], dtype=float32)}
     """
     leaves = jax.tree.leaves(x)
+    if not leaves:
+        # nothing to promote: a pytree without leaves is returned as it is
+        return x
     promoted_dtype = jnp.result_type(*leaves)
     result: P = jax.tree.map(
         lambda leaf: (
